@@ -246,7 +246,13 @@ func writeGroupIni(cmd *Command, group *Group, namespace string, writer io.Write
 		}
 
 		if !sectionwritten {
-			fmt.Fprintf(writer, "[%s]\n", sname)
+			// the parser's own top group has no name (see AddOption): its
+			// entries go before the first section header, where the reader
+			// looks them up in all of the parser's groups
+			if len(sname) != 0 {
+				fmt.Fprintf(writer, "[%s]\n", sname)
+			}
+
 			sectionwritten = true
 		}
 
